@@ -167,6 +167,46 @@ func runC10(c *Ctx) {
 				c.check(!fromSrc[st.Val], "copy-slice:"+fieldTail(k), instrPos(in), "section slice is freshly allocated",
 					"the copy's "+fieldTail(k)+" section aliases the source message's slice")
 			})
+			// (a') a whole-struct copy of the source into the result shares every slice that is not replaced afterwards
+			eachInstr(cno, func(in ssa.Instruction) {
+				st, ok := in.(*ssa.Store)
+				if !ok || st.Addr != ssa.Value(res) {
+					return
+				}
+				ld, ok := st.Val.(*ssa.UnOp)
+				if !ok || ld.X != ssa.Value(src) {
+					return
+				}
+				mt := structOf(res.Type())
+				for i := 0; i < mt.NumFields(); i++ {
+					if _, isSl := mt.Field(i).Type().Underlying().(*types.Slice); !isSl {
+						continue
+					}
+					name := mt.Field(i).Name()
+					replaced := false
+					eachInstr(cno, func(y ssa.Instruction) {
+						s2, ok := y.(*ssa.Store)
+						if !ok || !instrDominates(in, y) {
+							return
+						}
+						fa, ok := s2.Addr.(*ssa.FieldAddr)
+						if !ok || fa.X != ssa.Value(res) || mt.Field(fa.Field).Name() != name || fromSrc[s2.Val] {
+							return
+						}
+						okAll := true
+						for _, r := range returnsOf(cno) {
+							if returnedValues(r)[0] == ssa.Value(res) && !instrDominates(y, r) {
+								okAll = false
+							}
+						}
+						if okAll {
+							replaced = true
+						}
+					})
+					c.check(replaced, "copy-slice:"+name, instrPos(in), "section slice replaced by a fresh one after the struct copy",
+						"the message is copied as a whole struct and its "+name+" slice is not replaced by a fresh one on every path: the cached copy shares that section's backing array with the caller's message")
+				}
+			})
 			// (b) every record stored anywhere is a dns.Copy result
 			n := 0
 			eachInstr(cno, func(in ssa.Instruction) {
@@ -191,55 +231,7 @@ func runC10(c *Ctx) {
 	// ---------------------------------------------------------------- R3
 	c.rule("R3", "a cache hit gets the id of the query it answers before it becomes the response", 1)
 	get := c.fn(relCachePlugin, "", "getRespFromCache")
-	if ex := c.fn(relCachePlugin, "Cache", "Exec"); ex != nil && get != nil {
-		eachInstr(ex, func(in ssa.Instruction) {
-			ci, ok := in.(*ssa.Call)
-			if !ok || callName(ci) != "(*pkg/query_context.Context).SetResponse" {
-				return
-			}
-			resp := ci.Call.Args[1]
-			// resp comes from the lookup
-			fromGet := false
-			if e, ok := resp.(*ssa.Extract); ok {
-				if cl, ok := e.Tuple.(*ssa.Call); ok && staticCallee(cl) == get {
-					fromGet = true
-				}
-			}
-			idSet := false
-			eachInstr(ex, func(x ssa.Instruction) {
-				st, ok := x.(*ssa.Store)
-				if !ok {
-					return
-				}
-				// either before SetResponse, or right after it on every path to the next chain step / exit
-				if !instrDominates(x, in) {
-					if !instrDominates(in, x) {
-						return
-					}
-					if _, leak := reachAvoiding(in, func(y ssa.Instruction) bool {
-						if isReturn(y) {
-							return true
-						}
-						cc, ok := y.(*ssa.Call)
-						return ok && strings.HasSuffix(callName(cc), ".ExecNext")
-					}, func(y ssa.Instruction) bool { return y == x }); leak {
-						return
-					}
-				}
-				if k, ok := fieldKey(st.Addr); ok && k == "github.com/miekg/dns.MsgHdr.Id" && fieldBase(st.Addr) == resp {
-					if k2, ok := loadedField(st.Val); ok && k2 == "github.com/miekg/dns.MsgHdr.Id" {
-						if ld, ok := st.Val.(*ssa.UnOp); ok {
-							if cl, ok := fieldBase(ld.X).(*ssa.Call); ok && callName(cl) == "(*pkg/query_context.Context).Q" {
-								idSet = true
-							}
-						}
-					}
-				}
-			})
-			c.check(fromGet && idSet, "hit-id@"+funcName(ex), instrPos(in), "cached.Id = q.Id is executed on the hit path before the response is visible to the next chain step",
-				"the cached answer becomes the response without receiving the id of the current query")
-		})
-	}
+	checkHitID(c)
 
 	// ---------------------------------------------------------------- R4
 	c.rule("R4", "every message returned by the lookup is a Copy() of the stored message", 2)
@@ -297,4 +289,95 @@ func runC10(c *Ctx) {
 			c.check(good, "refresh-on-copy@"+funcName(dl), instrPos(doChan), "refresh runs on qCtx.Copy() taken before the goroutine starts", why+": the refresh writes into the context of the query being answered")
 		}
 	}
+}
+
+// checkHitID (C10-R3, C03-R5): every cached message that becomes the response carries the id of the current query.
+// Accepted: the id is set in Exec on the hit path (before SetResponse, or right after it before the next chain step),
+// or the lookup itself sets it on every non-nil return from a query message it was handed.
+func checkHitID(c *Ctx) {
+	get := c.fn(relCachePlugin, "", "getRespFromCache")
+	// lookup-side form
+	lookupSets := get != nil
+	if get != nil {
+		n := 0
+		for _, r := range returnsOf(get) {
+			v := returnedValues(r)[0]
+			if isNilConst(v) {
+				continue
+			}
+			n++
+			okR := false
+			eachInstr(get, func(x ssa.Instruction) {
+				st, ok := x.(*ssa.Store)
+				if !ok || !instrDominates(x, r) {
+					return
+				}
+				if k, ok := fieldKey(st.Addr); ok && k == "github.com/miekg/dns.MsgHdr.Id" && fieldBase(st.Addr) == v {
+					if k2, ok := loadedField(st.Val); ok && k2 == "github.com/miekg/dns.MsgHdr.Id" {
+						if ld, ok := st.Val.(*ssa.UnOp); ok {
+							if _, isParam := fieldBase(ld.X).(*ssa.Parameter); isParam {
+								okR = true
+							}
+						}
+					}
+				}
+			})
+			if !okR {
+				lookupSets = false
+			}
+		}
+		if n == 0 {
+			lookupSets = false
+		}
+	}
+	if ex := c.fn(relCachePlugin, "Cache", "Exec"); ex != nil && get != nil {
+		eachInstr(ex, func(in ssa.Instruction) {
+			ci, ok := in.(*ssa.Call)
+			if !ok || callName(ci) != "(*pkg/query_context.Context).SetResponse" {
+				return
+			}
+			resp := ci.Call.Args[1]
+			// resp comes from the lookup
+			fromGet := false
+			if e, ok := resp.(*ssa.Extract); ok {
+				if cl, ok := e.Tuple.(*ssa.Call); ok && staticCallee(cl) == get {
+					fromGet = true
+				}
+			}
+			idSet := false
+			eachInstr(ex, func(x ssa.Instruction) {
+				st, ok := x.(*ssa.Store)
+				if !ok {
+					return
+				}
+				// either before SetResponse, or right after it on every path to the next chain step / exit
+				if !instrDominates(x, in) {
+					if !instrDominates(in, x) {
+						return
+					}
+					if _, leak := reachAvoiding(in, func(y ssa.Instruction) bool {
+						if isReturn(y) {
+							return true
+						}
+						cc, ok := y.(*ssa.Call)
+						return ok && strings.HasSuffix(callName(cc), ".ExecNext")
+					}, func(y ssa.Instruction) bool { return y == x }); leak {
+						return
+					}
+				}
+				if k, ok := fieldKey(st.Addr); ok && k == "github.com/miekg/dns.MsgHdr.Id" && fieldBase(st.Addr) == resp {
+					if k2, ok := loadedField(st.Val); ok && k2 == "github.com/miekg/dns.MsgHdr.Id" {
+						if ld, ok := st.Val.(*ssa.UnOp); ok {
+							if cl, ok := fieldBase(ld.X).(*ssa.Call); ok && callName(cl) == "(*pkg/query_context.Context).Q" {
+								idSet = true
+							}
+						}
+					}
+				}
+			})
+			c.check(fromGet && (idSet || lookupSets), "hit-id@"+funcName(ex), instrPos(in), "cached.Id = q.Id is executed on the hit path before the response is visible to the next chain step",
+				"the cached answer becomes the response without receiving the id of the current query")
+		})
+	}
+
 }
